@@ -314,6 +314,18 @@ pub fn c08(ctx: &Ctx) -> PropResult {
         }
         cases.push(Case::new(Kind::Parse, units.concat()).tag("mutated-program"));
     }
+    // long tokens with multi-byte characters at every byte offset, in every kind of error position
+    // (diagnostics quote, shorten or measure the offending token's text)
+    let templates = ["x <- 1 @", "@ @", "(@", "IF @ {", "@ <- ", "@(", "[@", "REPEAT @", "REPEAT @ TIMES", "FOR EACH @ IN", "FOR EACH x IN @", "PROCEDURE @", "PROCEDURE f(@ @)", "IMPORT @", "IMPORT @ FROM", "x <- @ +", "@ )", "RETURN @", "{ @", "@ }", "x[@", "f(1, @ 2)", "NOT @ @", "@ = 1", "BREAK @"];
+    for t in templates {
+        for pre in 0..44usize {
+            for fill in ["é", "中", "😀"] {
+                let body = format!("{}{}{}", "a".repeat(pre), fill.repeat(3), "b".repeat(pre % 5));
+                cases.push(Case::new(Kind::Parse, t.replace('@', &body)).tag("long-token-error"));
+                cases.push(Case::new(Kind::Parse, t.replace('@', &format!("\"{body}\""))).tag("long-token-error"));
+            }
+        }
+    }
     // bracket nesting to the fixed depth
     for depth in [1usize, 10, 50, 100, 200] {
         for (o, c) in [("(", ")"), ("[", "]"), ("{", "}")] {
